@@ -39,6 +39,7 @@ import (
 
 	"github.com/cosmos/cosmos-sdk/simapp/helpers"
 	sdk "github.com/cosmos/cosmos-sdk/types"
+	upgradetypes "github.com/cosmos/cosmos-sdk/x/upgrade/types"
 	abci "github.com/tendermint/tendermint/abci/types"
 
 	evm "github.com/tharsis/ethermint/x/evm/types"
@@ -66,6 +67,12 @@ type c04Sent struct {
 	bytes []byte
 }
 
+type c04Recvd struct {
+	p         packettypes.Packet
+	nestedDst string
+	cbCode    int
+}
+
 type c04Hist struct {
 	w        *c04World
 	r        *Rec
@@ -75,8 +82,10 @@ type c04Hist struct {
 	acked    map[string]bool      // dst/seq accepted acknowledgements
 	selfCl   bool                 // a client under the chain's own name exists (property hypothesis violated)
 	cb       bool
-	recvd    []packettypes.Packet // accepted receives (for replays)
+	recvd    []c04Recvd // accepted receives (for replays; after an upgrade the receipts are gone and a replay runs its callback again)
 	nextRecv uint64
+	upgraded int  // number of software upgrades applied in this history
+	mode     int  // 0 normal, 1 own-name witness, 2 upgrade-heavy
 	rg       *rand.Rand // PRNG of this history (sub-seed drawn from r.Rng and recorded in the `gen` line for replays)
 }
 
@@ -494,6 +503,9 @@ func (h *c04Hist) doTx(kind string, to common.Address, value *big.Int, data []by
 		}
 		if len(ps) > 0 {
 			h.r.Count("send.ok")
+			if h.upgraded > 0 {
+				h.r.Count("send.ok.after-upgrade")
+			}
 			h.r.Nontrivial(strings.Join(h.ops, ";") + lf)
 		}
 		if len(ps) > 1 {
@@ -620,6 +632,60 @@ func (h *c04Hist) doHook() {
 	h.emit("hook "+lf, res)
 }
 
+// doUpgrade runs the repository's registered software-upgrade handler (app/upgrades.go, plan "v0.2").
+// First upgrade of a history (usually): the plan is scheduled through the upgrade keeper for the next height and the
+// block is committed, so x/upgrade's BeginBlocker applies it at the plan height. Otherwise (a plan name can be
+// scheduled only once) UpgradeKeeper.ApplyUpgrade — the function BeginBlocker calls — is invoked directly, mid-block.
+// Afterwards the test-environment step of xibctesting.NewTestChain is repeated (the packet contract's chain name lives
+// in the contract storage the handler wipes); clients and relayers are gone and are re-created by `client` ops.
+func (h *c04Hist) doUpgrade() {
+	w := h.w
+	ctx := w.A.GetContext()
+	how := "beginblock"
+	var perr string
+	done := w.A.App.UpgradeKeeper.GetDoneHeight(ctx, "v0.2") != 0
+	if !done && h.rg.Intn(4) != 0 {
+		plan := upgradetypes.Plan{Name: "v0.2", Height: ctx.BlockHeight() + 1}
+		c04Must(w.A.App.UpgradeKeeper.ScheduleUpgrade(ctx, plan))
+		if pan, msg := safely(func() { w.coord.CommitBlock(w.A) }); pan {
+			perr = msg
+		} else if w.A.App.UpgradeKeeper.GetDoneHeight(w.A.GetContext(), "v0.2") != plan.Height {
+			perr = "plan not executed at its height"
+		}
+	} else {
+		how = "direct"
+		if pan, msg := safely(func() {
+			w.A.App.UpgradeKeeper.ApplyUpgrade(ctx, upgradetypes.Plan{Name: "v0.2", Height: ctx.BlockHeight()})
+		}); pan {
+			perr = msg
+		}
+	}
+	if perr != "" {
+		h.find("C04:upgrade-handler-failed", "the registered upgrade handler panicked / was not applied", perr, "handler runs")
+	}
+	safely(func() { w.A.SetPacketChainName() })
+	h.sent = map[string][]c04Sent{}
+	h.acked = map[string]bool{}
+	h.selfCl = false
+	h.upgraded++
+	h.r.Count("upgrade")
+	h.r.Count("upgrade." + how)
+	h.r.Nontrivial(strings.Join(h.ops, ";") + ";upgrade")
+	h.emit("upgrade", "ok")
+}
+
+// names whose client the world creates at start and an upgrade removes
+func (h *c04Hist) missingClients() []string {
+	w := h.w
+	var l []string
+	for _, n := range []string{w.B.ChainID, w.C.ChainID, w.tss} {
+		if _, found := w.A.App.XIBCKeeper.ClientKeeper.GetClientState(w.A.GetContext(), n); !found {
+			l = append(l, n)
+		}
+	}
+	return l
+}
+
 func (h *c04Hist) doClient(name string) {
 	w := h.w
 	ctx := w.A.GetContext()
@@ -700,7 +766,8 @@ func (h *c04Hist) doRecv(kind int) {
 		if len(h.recvd) == 0 {
 			p.TransferData = mkTransfer(c04Relayer)
 		} else {
-			p = h.recvd[rg.Intn(len(h.recvd))]
+			old := h.recvd[rg.Intn(len(h.recvd))]
+			p, nestedDst, cbCode = old.p, old.nestedDst, old.cbCode
 			h.nextRecv--
 		}
 	case 6:
@@ -755,7 +822,7 @@ func (h *c04Hist) doRecv(kind int) {
 			}
 		}
 		h.noteSends(own)
-		h.recvd = append(h.recvd, p)
+		h.recvd = append(h.recvd, c04Recvd{p, nestedDst, cbCode})
 		// logs of the callback: successful nested sends are read from the events (exact bytes); a failing
 		// nested send is known by construction
 		switch {
@@ -891,6 +958,17 @@ func (h *c04Hist) randAmt(tok int) int64 {
 
 func (h *c04Hist) genOp(witness bool) {
 	w, rg := h.w, h.rg
+	if h.mode == 2 && len(h.ops) > 4 && rg.Intn(100) < 7 {
+		h.doUpgrade()
+		return
+	}
+	if h.upgraded > 0 {
+		// after an upgrade every client is gone: re-create them (as TSS clients) so that sends resume
+		if miss := h.missingClients(); len(miss) > 0 && rg.Intn(100) < 30 {
+			h.doClient(miss[rg.Intn(len(miss))])
+			return
+		}
+	}
 	switch x := rg.Intn(100); {
 	case x < 30: // single crossChainCall from the sender
 		tok := []int{0, 0, 1, 3}[rg.Intn(4)]
@@ -940,6 +1018,8 @@ func (h *c04Hist) genOp(witness bool) {
 			name = w.self
 		}
 		h.doClient(name)
+	case x >= 98:
+		h.doUpgrade()
 	default:
 		w.coord.CommitBlock(w.A)
 		h.r.Count("commit")
@@ -965,11 +1045,11 @@ func (w *c04World) fund() {
 	w.coord.CommitBlock(w.A)
 }
 
-func newC04Hist(t *testing.T, r *Rec, cb bool, sub int64, witness bool, n int) *c04Hist {
+func newC04Hist(t *testing.T, r *Rec, cb bool, sub int64, mode int, n int) *c04Hist {
 	w := newC04World(t)
 	w.fund()
 	h := &c04Hist{w: w, r: r, universe: map[string]bool{}, sent: map[string][]c04Sent{}, acked: map[string]bool{}, cb: cb, rg: rand.New(rand.NewSource(sub))}
-	gen := fmt.Sprintf("gen %d %s %d", sub, c04B(witness), n)
+	gen := fmt.Sprintf("gen %d %d %d", sub, mode, n)
 	h.ops = append(h.ops, gen)
 	r.Op(gen, "ok")
 	cl := []string{w.B.ChainID, w.C.ChainID, w.tss, "tss-2"}
@@ -1033,8 +1113,10 @@ func TestC04(t *testing.T) {
 	if r.Tier == "thorough" {
 		nh, hl = 200, 45
 	}
-	runHist := func(sub int64, witness bool, n int) {
-		h := newC04Hist(t, r, cb, sub, witness, n)
+	runHist := func(sub int64, mode int, n int) {
+		witness := mode == 1
+		h := newC04Hist(t, r, cb, sub, mode, n)
+		h.mode = mode
 		for j := 0; j < n; j++ {
 			h.genOp(witness)
 		}
@@ -1059,12 +1141,19 @@ func TestC04(t *testing.T) {
 			if len(f) == 4 && f[0] == "gen" {
 				sub, _ := strconv.ParseInt(f[1], 10, 64)
 				n, _ := strconv.Atoi(f[3])
-				runHist(sub, f[2] == "1", n)
+				mode, _ := strconv.Atoi(f[2])
+				runHist(sub, mode, n)
 			}
 		}
 	}
 	for i := 0; i < nh; i++ {
-		witness := i%10 == 9 // every tenth history may register a client under the chain's own name (watch item)
-		runHist(r.Rng.Int63(), witness, 5+r.Rng.Intn(hl))
+		mode := 0
+		switch {
+		case i%10 == 9: // every tenth history may register a client under the chain's own name (watch item)
+			mode = 1
+		case i%4 == 2: // upgrade-heavy: the software-upgrade handler runs at arbitrary points
+			mode = 2
+		}
+		runHist(r.Rng.Int63(), mode, 5+r.Rng.Intn(hl))
 	}
 }
